@@ -793,7 +793,9 @@ func isRouteNamespaceAllowedByListener(
 
 			ns, exists := namespaces[types.NamespacedName{Name: routeNS}]
 			if !exists {
-				panic(fmt.Errorf("route namespace %q not found in map", routeNS))
+				// The Namespace has not been seen (yet): its labels are unknown, so the selector cannot match.
+				// The event for the Namespace will trigger a rebuild once it arrives.
+				return false
 			}
 			return listener.AllowedRouteLabelSelector.Matches(labels.Set(ns.Labels))
 		}
